@@ -113,7 +113,7 @@ PROPS['C13'] = dict(
           'document (the text is cut), or the document is invalid; distinct = hash(document, capacity).'),
     tiers=dict(
         quick=[enum(shards=2, variant='san', env={'VH_ENUM_N': '5'}), rc(7000, shards=7, max_size=250, corpus=CORPUS), fuzz(10000, shards=7, max_len=256, corpus=CORPUS)],
-        thorough=[enum(shards=4, variant='san', env={'VH_ENUM_N': '7'}), rc(300000, shards=4, max_size=500, corpus=CORPUS),
+        thorough=[enum(shards=4, variant='san', env={'VH_ENUM_N': '7'}), rc(50000, shards=6, max_size=500, corpus=CORPUS),
                   fuzz(120000, shards=12, max_len=1024, corpus=CORPUS)],
     ),
     exhaustive_note=lambda tier, tot: [dict(scope='every capacity 0..need+3 of every tree with <= %d nodes over {object, array, int, bool}' % (5 if tier == 'quick' else 7),
